@@ -37,6 +37,7 @@ pub use std_map::*;
 
 pub mod bitset;
 pub mod exec;
+pub mod sync;
 pub mod vvec;
 
 /// Footprint / concrete capacity. Fixed per build with `--cfg vcoll_cap="N"`-free scheme:
